@@ -34,41 +34,42 @@ Lemma feed_m_poly r b : r < 2 ^ w ->
   N.lxor (N.lxor (N.double r) (if b then 2 ^ w else 0))
          (if xorb (N.testbit r (w - 1)) b then G else 0).
 Proof.
-  intros Hr. unfold feed_m, step_m. cbv zeta.
-  rewrite N.lxor_spec.
+  intros Hr. apply N.bits_inj; intro i.
+  (* arithmetic facts first, while the context is small (lia with ZifyBool is slow otherwise) *)
+  assert (Hcase : (i <? w = true /\ (w =? i) = false /\ (w - 1 =? i - 1) && (1 <=? i) = false) \/
+                  (i = w /\ (1 <=? w) = true /\ (w <? w) = false) \/
+                  (i <? w = false /\ (w =? i) = false /\ w <= i - 1 /\ w <= i)).
+  { destruct (N.lt_trichotomy i w) as [Hi|[Hi|Hi]]; [left|right;left|right;right]; lia. }
+  assert (Hpw : N.testbit p w = false) by (apply (tb_high p w); [assumption|lia]).
+  unfold feed_m, step_m. cbv zeta. rewrite N.lxor_spec.
   assert (HT : N.testbit (if b then N.shiftl 1 (w - 1) else 0) (w - 1) = b).
   { destruct b; [|apply N.bits_0]. rewrite N.shiftl_1_l, tb_pow2. apply N.eqb_refl. }
   rewrite HT. clear HT.
-  assert (Hsh : forall i, N.testbit (trunc w (N.shiftl (N.lxor r (if b then N.shiftl 1 (w - 1) else 0)) 1)) i
-                       = (i <? w) && ((1 <=? i) && N.testbit r (i - 1))).
-  { intro i. rewrite tb_trunc, tb_shiftl, N.lxor_spec.
-    destruct (N.ltb_spec i w); cbn [andb]; [|reflexivity].
-    destruct (N.leb_spec 1 i); cbn [andb]; [|reflexivity].
-    destruct b; rewrite ?N.bits_0, ?xorb_false_r; [|reflexivity].
-    rewrite N.shiftl_1_l, tb_pow2. destruct (N.eqb_spec (w - 1) (i - 1)); [lia|]. now rewrite xorb_false_r. }
-  apply N.bits_inj; intro i.
+  set (t := xorb (N.testbit r (w - 1)) b).
+  assert (Hsh : N.testbit (trunc w (N.shiftl (N.lxor r (if b then N.shiftl 1 (w - 1) else 0)) 1)) i
+                = (i <? w) && ((1 <=? i) && xorb (N.testbit r (i - 1)) (b && ((w - 1 =? i - 1))))).
+  { rewrite tb_trunc, tb_shiftl, N.lxor_spec. do 3 f_equal.
+    destruct b; [|apply N.bits_0]. now rewrite N.shiftl_1_l, tb_pow2. }
   assert (HG : N.testbit G i = (w =? i) || N.testbit p i).
   { unfold G. now rewrite N.lor_spec, tb_pow2. }
   assert (Hd : N.testbit (N.double r) i = (1 <=? i) && N.testbit r (i - 1)) by apply tb_double.
   assert (Hbw : N.testbit (if b then 2 ^ w else 0) i = b && (w =? i)).
   { destruct b; [now rewrite tb_pow2|apply N.bits_0]. }
-  set (t := xorb (N.testbit r (w - 1)) b).
   assert (HL : forall v', N.testbit (if t then N.lxor v' p else v') i
                           = xorb (N.testbit v' i) (t && N.testbit p i)).
   { intro v'. destruct t; [apply N.lxor_spec|now rewrite xorb_false_r]. }
   assert (HR : N.testbit (if t then G else 0) i = t && ((w =? i) || N.testbit p i)).
   { destruct t; [exact HG|apply N.bits_0]. }
   rewrite HL, Hsh, !N.lxor_spec, HR, Hd, Hbw.
-  destruct (N.lt_trichotomy i w) as [Hi|[Hi|Hi]].
-  - destruct (N.ltb_spec i w); [|lia]. destruct (N.eqb_spec w i); [lia|]. cbn [andb orb].
-    now rewrite andb_false_r, xorb_false_r.
-  - subst i. destruct (N.ltb_spec w w); [lia|]. rewrite N.eqb_refl.
-    destruct (N.leb_spec 1 w); [|lia]. cbn [andb orb].
-    rewrite (tb_high p w w) by (assumption || lia).
+  destruct Hcase as [(E1 & E2 & E3)|[(E1 & E2 & E3)|(E1 & E2 & E3 & E4)]].
+  - rewrite E1, E2. cbn [andb orb]. rewrite andb_false_r, xorb_false_r.
+    destruct (1 <=? i); cbn [andb]; [|reflexivity].
+    rewrite andb_true_r in E3. rewrite E3. now rewrite andb_false_r, xorb_false_r.
+  - subst i. rewrite E2, E3, !N.eqb_refl, Hpw. cbn [andb orb].
     unfold t. destruct (N.testbit r (w - 1)); destruct b; reflexivity.
-  - destruct (N.ltb_spec i w); [lia|]. destruct (N.eqb_spec w i); [lia|]. cbn [andb orb].
-    rewrite (tb_high p w i) by (assumption || lia).
-    rewrite (tb_high r w (i - 1)) by (assumption || lia).
+  - rewrite E1, E2. cbn [andb orb].
+    rewrite (tb_high p w i) by assumption.
+    rewrite (tb_high r w (i - 1)) by assumption.
     now rewrite !andb_false_r.
 Qed.
 
